@@ -371,11 +371,24 @@ fn run_typed<C: SimColor>(sc: &Scenario, opts: &Opts) -> RunOut {
 
     // (b)(c)(d) drawing
     let mut dev = SimDisplay::<C>::new(sc.dev.rect(), sc.dev.caps, sc.dev.disc());
+    // image colour streams are finite by this property ("exactly width x height colours"), so the
+    // draining consumer may drain without bound and by internal iteration (dev.rs)
+    dev.st.unbounded_ok = true;
+    crate::dev::take_hint_breach();
+    crate::dev::take_unbounded_abort();
     if out.violation.is_none() {
         let spec = DrawableSpec::Image(i.clone());
         let r = guarded(|| crate::workload::draw_spec::<C, _>(&spec, Path::Draw, &mut dev));
         out.sub_evals += 1;
+        let endless = crate::dev::take_unbounded_abort();
         match r {
+            Err(_) if endless => {
+                out.violation = Some(
+                    mk("stream_surplus", format!("the colour stream handed to fill_contiguous did not end within area + {} colours (consumer: DrainBounded, unbounded)", crate::dev::UNBOUNDED_LIMIT))
+                        .fact("surplus_is_one_row", "false")
+                        .fact("surplus_le_one_row", "false"),
+                )
+            }
             Err(p) => out.violation = Some(mk("panic", format!("Image::draw panicked: {}", p))),
             Ok(Err(e)) => out.violation = Some(mk("unexpected_error", format!("Image::draw returned Err({:#x}) on a fault-free device", e.0))),
             Ok(Ok(_)) => {}
@@ -486,6 +499,12 @@ fn run_typed<C: SimColor>(sc: &Scenario, opts: &Opts) -> RunOut {
                     ));
                     break;
                 }
+            }
+        }
+        // (e) the stream honours its own size_hint(): a target may size or stop its transfer by it
+        if out.violation.is_none() {
+            if let Some(b) = crate::dev::take_hint_breach() {
+                out.violation = Some(mk("size_hint_contradicted", b));
             }
         }
     }
